@@ -175,6 +175,8 @@ def gen_jobs(ck):
                 ins.append(["sx", [0], [], []])
                 c["meas"], _ = H.add_measures(rng, ins, c["labels"]); c["circ"] = {"nphys": n, "nclbits": n, "instrs": ins}
             jobs.append(dict(c, fam="seq_real", cls=cls, gates="standard", shots=S, parallel=False, npseed=rng.randrange(2 ** 31)))
+            if S == 3:    # a barely noisy gate set: the mean's total is 1 - 1e-6 .. 1 - 1e-9, the result must still be the NORMALISED mean, bit for bit
+                jobs.append(dict(c, fam="seq_real", cls=cls, gates="weak", shots=S, parallel=False, npseed=rng.randrange(2 ** 31)))
     # pool double: adversarial schedules
     for _ in range(40 if q else 300):
         S = rng.choice(shots_set + [4, 7, 9, 12, 20])
